@@ -120,6 +120,11 @@ func (h *handler1) run(ctx context.Context, snConn net.Conn) {
 	h.log.Debug("Handler starts.")
 	defer h.log.Debug("Handler quits.")
 
+	// All the goroutines of the handler must quit when run returns, even if
+	// it returns before h.group.Wait() is reached.
+	ctx, cancel := context.WithCancel(ctx)
+	defer cancel()
+
 	var groupCtx context.Context
 	h.group, groupCtx = errgroup.WithContext(ctx)
 
